@@ -25,6 +25,7 @@ Vocabulary (Proofs/FundGroup*.lean, namespace `DSymVerif.FGP`):
 -/
 import Mathlib.GroupTheory.PresentedGroup
 import DSymVerif.Proofs.FundGroupRel
+import DSymVerif.Proofs.FundGroupPair
 import DSymVerif.Spec.C09
 
 namespace DSymVerif.C09
@@ -171,7 +172,51 @@ theorem cones_are_traced_words (ds : DSymData) (f : FundGroup)
 
 example : fundamentalGroup symB = .ok fgB := by decide +kernel
 
-/-! ## 6. the open obligation (◐): Tietze equivalence with the textbook presentation -/
+/-! ## 6. totality: the model returns on every valid symbol -/
+
+/-- On every valid symbol (`ValidSym`, Proofs/DSetBasic.lean: a complete D-set with involutive
+    operations and commuting far operations, orbit tables as `collect_orbits` computes them, one
+    branching entry per orbit — what the library's constructors establish, C02
+    `validSym_constructors`) `fundamental_group` and `inner_edges` return a value: none of the
+    `unwrap()`s of `glue` / `find_generators` / `fundamental_group` fails, and the fuel the model
+    gives to the `while let` loop of `glue_recursively` and to the `loop` of `trace_word` is never
+    used up (the Rust loops terminate).  Connectedness is not needed for this. -/
+theorem fg_total (ds : DSymData) (hs : ValidSym ds) :
+    (∃ f, fundamentalGroup ds = .ok f) ∧ ∃ es, innerEdges ds = .ok es :=
+  ⟨fundamentalGroup_ok hs, innerEdges_ok hs⟩
+
+example : ValidSym (DSymData.ofSimple ex2) := ex2_validSym
+
+/-! ## 7. every generator is carried by exactly one facet pair -/
+
+/-- For a valid symbol and every entry `g ↦ (d,i)` of `gen_to_edge`:
+    `(d,i)` is a facet; if it is not a mirror (`s_i d ≠ d`) then `edge_to_word(d,i) = [g]` and
+    `edge_to_word(s_i d, i) = [-g]`; if it is a mirror then `edge_to_word(d,i) = [-g]` (the code's
+    second `insert` overwrites the first).  Two different generators never share a facet pair:
+    the facet of one is neither the facet of the other nor the facet on its other side.
+    (Other facets may carry the one-letter word `[±g]` as a *derived* word — e.g. `(2,0) ↦ [-1]`
+    in `test_fundamental_group_c` — so "no other facet carries ±g" is not what the code does and
+    not what the Spec checks; the Spec clauses are `each-generator-on-its-own-facet-pair` and
+    `generator-facet-carries-its-letter`, which are exactly this theorem.) -/
+theorem generator_facet_pairs (ds : DSymData) (hs : ValidSym ds) (f : FundGroup)
+    (h : fundamentalGroup ds = .ok f) :
+    (∀ p ∈ f.genToEdge, 1 ≤ p.1 ∧ p.1 ≤ f.nrGenerators ∧
+      (1 ≤ p.2.1 ∧ p.2.1 ≤ ds.size ∧ p.2.2 ≤ ds.dim) ∧
+      (ds.dset.opU p.2.2 p.2.1 ≠ p.2.1 →
+        e2wGet f.edgeToWord p.2 = [(p.1 : Int)] ∧
+        e2wGet f.edgeToWord (ds.dset.opU p.2.2 p.2.1, p.2.2) = [-(p.1 : Int)]) ∧
+      (ds.dset.opU p.2.2 p.2.1 = p.2.1 → e2wGet f.edgeToWord p.2 = [-(p.1 : Int)])) ∧
+    (∀ p ∈ f.genToEdge, ∀ q ∈ f.genToEdge, p.1 ≠ q.1 →
+      q.2 ≠ p.2 ∧ q.2 ≠ (ds.dset.opU p.2.2 p.2.1, p.2.2)) := by
+  obtain ⟨bnd, gi⟩ := findGenerators_ginv hs (fundamentalGroup_e2w h)
+  refine ⟨?_, gi.distinct⟩
+  intro p hp
+  obtain ⟨hf, _, hw⟩ := gi.gens p hp
+  exact ⟨(gi.keys p hp).1, (gi.keys p hp).2, hf, hw.1, hw.2⟩
+
+example : ValidSym (DSymData.ofSimple ex2) := ex2_validSym
+
+/-! ## 8. the open obligation (◐): Tietze equivalence with the textbook presentation -/
 
 /-- the group with generators `1..n` and the relator words `rels`
     (a quotient of `FreeGroup ℕ`: letters `0` and `> n` are killed) -/
